@@ -913,15 +913,24 @@ def check_error_hooks(ck, ctx, rule="O-silent"):
         names = [k[1] for k in m.mro(rs[1])] if rs and rs[0] == "class" else [r.cls_name]
         return "SimpleDDLParserException" in names or "DDLParserError" in names
 
+    effects = {}
+
     def call(fname, arg, silent):
-        it = Interp(m, ctx.grammar.tokens_ns, Obj(), self_attrs={"silent": silent, "statement": "CREATE TABLE t ( a int ~ )"})
+        attrs = {"silent": silent, "statement": "CREATE TABLE t ( a int ~ )", "tables": [], "comments": []}
+        lexer = Obj(is_table=True, lp_open=1, columns_def=True, last_token="ID")
+        it = Interp(m, ctx.grammar.tokens_ns, lexer, self_attrs=attrs)
+        before = (repr(sorted(attrs.items())), repr(sorted(lexer.__dict__.items())))
         try:
-            it.call_func(m.parser_method(fname), [arg])
-            return "returns", None
-        except Raised as r:
-            return ("raises DDLParserError" if family(r) else f"raises {r.cls_name}"), r
-        except PyRaise as pr:
-            return f"raises {type(pr.exc).__name__}: {pr.exc}", pr
+            try:
+                it.call_func(m.parser_method(fname), [arg])
+                return "returns", None
+            except Raised as r:
+                return ("raises DDLParserError" if family(r) else f"raises {r.cls_name}"), r
+            except PyRaise as pr:
+                return f"raises {type(pr.exc).__name__}: {pr.exc}", pr
+        finally:
+            after = (repr(sorted(it.self_attrs.items())), repr(sorted(lexer.__dict__.items())))
+            effects[(fname, arg is None, silent)] = None if after == before else f"parser attributes / lexer flags before {before} after {after}"
     tok = Obj(type="ID", value="foo", lineno=1, lexpos=14)
     sym = Obj(type="error", value="~ )", lineno=1, lexpos=23, lexer=Obj(lexpos=23, lexdata="CREATE TABLE t ( a int ~ )"))
     cases = [("p_error(<token>)", "p_error", tok, {True: "returns", False: "raises DDLParserError"}),
@@ -931,6 +940,10 @@ def check_error_hooks(ck, ctx, rule="O-silent"):
         for silent in (True, False):
             got, _e = call(fname, arg, silent)
             ck.ob(rule, f"{label}, silent={silent}", got == want[silent], f"expected: {want[silent]}; the hook {got}",
+                  f"DDLParser.{fname} (evaluated abstractly)")
+            eff = effects.get((fname, arg is None, silent))
+            ck.ob(rule, f"{label}, silent={silent}: no other effect", eff is None,
+                  "the error hook must not alter parser state (results with silent=True / False must agree)" + ("" if eff is None else "; " + eff[:300]),
                   f"DDLParser.{fname} (evaluated abstractly)")
 
 
